@@ -144,7 +144,10 @@ class ParseOverlap:
         self.calls = 0
 
     def __enter__(self):
-        self.orig = self.im.ee.parse_source
+        self.orig = getattr(self.im.ee, "parse_source", None)
+        self.installed = callable(self.orig)
+        if not self.installed:
+            return self  # the evaluator no longer resolves parse_source through its module: overlap evidence unavailable
         real = self.orig
 
         def wrapper(text):
@@ -164,7 +167,8 @@ class ParseOverlap:
         return self
 
     def __exit__(self, *exc):
-        self.im.ee.parse_source = self.orig
+        if self.installed:
+            self.im.ee.parse_source = self.orig
         return False
 
 
@@ -368,8 +372,10 @@ def run(ctx):
     windows = {tuple(sig[i: i + 16]) for i in range(0, max(0, len(sig) - 16), 4)}
     ctx.count("distinct-interleaving-signatures(16-switch windows)", len(windows))
     ctx.layer("line-event-yield-injection", "observed" if inter.events else "unreachable", events=inter.events, switches=inter.switches)
-    if total_overlap == 0 and not ctx.nviolations:
-        ctx.set_inconclusive("no two threads were ever inside parse_source at the same time")
+    ctx.layer("parse-overlap-probe", "observed" if total_calls else "unreachable", calls=total_calls, overlapping=total_overlap)
+    if total_overlap == 0 and inter.switches == 0 and not ctx.nviolations:
+        ctx.set_inconclusive("no evidence of interleaving: no two threads were ever inside parse_source at the same time and no "
+                             "cross-thread switch was seen between line events")
     ctx.sample(dict(workloads=["W1 construct", "W5 same-name revisions", "W2 shared calls", "W3 A/B recompile race", "W4 failing recompile race"],
                     sources=len(SOURCES), example_source=SOURCES[1]))
 
